@@ -5,7 +5,7 @@
 From Coq Require Import List ZArith Bool Permutation.
 From GZ Require Import Lib.RollingWindow Lib.RollingWindowSpec Lib.RollingWindowProofs.
 From GZ Require Import C16.Model C16.ProofsMap C16.ProofsSeq C16.ProofsCache C16.ProofsCacheLru.
-From GZ Require Import C16.ModelW C16.ProofsW.
+From GZ Require Import C16.ModelW C16.ProofsW C16.ProofsWClamp.
 Import ListNotations.
 Open Scope Z_scope.
 
@@ -231,6 +231,49 @@ Theorem cache_rewrite_resets_expiry : forall limit n i mv pre k v0 d0 mid v d a,
   alookup k (cdata (cwc (cw_final s1 a))) = if xticks a <? d / i then Some v else None.
 Proof. exact cache_rewrite_resets_expiry_proof. Qed.
 Print Assumptions cache_rewrite_resets_expiry.
+
+(* The code as repaired (9733d1f: a rewrite refreshes the timer with SetTimer, mv = false)
+   for EVERY expiry d, also below one wheel interval: the entry lives for
+   floor(max d interval / interval) >= 1 ticks from its latest Set - a rewrite never
+   makes the entry vanish before it expired (with MoveTimer a rewrite with d < interval
+   removed it at once: Pinned.cache_subinterval_rewrite_refuted). *)
+Theorem cache_entry_expires_clamped : forall limit n i pre k v d a,
+  1 <= n -> 1 <= i ->
+  let s1 := cw_final (cw_new limit n i false) (pre ++ [XSet k v d]) in
+  forallb (fun o => negb (xwrites k o)) a = true ->
+  cw_never_evicts s1 k a ->
+  alookup k (cdata (cwc (cw_final s1 a))) = if xticks a <? Z.max d i / i then Some v else None.
+Proof. exact cache_entry_expires_clamped_proof. Qed.
+Print Assumptions cache_entry_expires_clamped.
+
+Theorem cache_rewrite_resets_expiry_clamped : forall limit n i pre k v0 d0 mid v d a,
+  1 <= n -> 1 <= i ->
+  let s0 := cw_final (cw_new limit n i false) (pre ++ XSet k v0 d0 :: mid) in
+  amem k (cdata (cwc s0)) = true ->
+  let s1 := cw_final s0 [XSet k v d] in
+  forallb (fun o => negb (xwrites k o)) a = true ->
+  cw_never_evicts s1 k a ->
+  alookup k (cdata (cwc (cw_final s1 a))) = if xticks a <? Z.max d i / i then Some v else None.
+Proof. exact cache_rewrite_clamped_proof. Qed.
+Print Assumptions cache_rewrite_resets_expiry_clamped.
+
+Theorem cache_rewrite_survives_until_tick : forall limit n i pre k v0 d0 mid v d a,
+  1 <= n -> 1 <= i ->
+  let s0 := cw_final (cw_new limit n i false) (pre ++ XSet k v0 d0 :: mid) in
+  amem k (cdata (cwc s0)) = true ->
+  let s1 := cw_final s0 [XSet k v d] in
+  forallb (fun o => negb (xwrites k o)) a = true ->
+  cw_never_evicts s1 k a ->
+  xticks a = 0 ->
+  alookup k (cdata (cwc (cw_final s1 a))) = Some v.
+Proof. exact cache_rewrite_survives_until_tick_proof. Qed.
+Print Assumptions cache_rewrite_survives_until_tick.
+
+(* non-vacuity: key 1 live, rewritten with half an interval, read back before the tick *)
+Example ex_cachew_sub :
+  cw_run (cw_new 2 300 1000 false) [XSet 1 10 1500; XSet 1 11 500; XGet 1; XTick; XGet 1] =
+    [OUnit; OUnit; OOpt (Some 11); OUnit; OOpt None].
+Proof. vm_compute. reflexivity. Qed.
 
 (* the composed model is the event-based cache model of the theorems above, run on the
    same history with an Expire k event exactly where the wheel fired k: same answers,
